@@ -49,6 +49,11 @@ structure RawFacts where
   frozenListEmbedsList : Bool
   /-- the methods `pyFrozenList` defines itself -/
   frozenListMethods : List String
+  /-- how `sorted` honours `reverse`: "flip-comparator" (the same sort with `order = GreaterThan`) or "reverse-after"
+      (ascending sort, then `slices.Reverse`) -/
+  sortedReverse : String
+  /-- the sort function(s) `sorted` calls, e.g. ["sort.Slice"] -/
+  sortedSortFns : List String
   /-- `interpretOps`: the comparison that decides "one more operator" vs. "the rest first", as `lhs op rhs` over
       the indices of the operator list -/
   opsCompare : String
@@ -72,6 +77,8 @@ def factsOf (r : RawFacts) : Facts where
     | some (_, _, asserted, unwraps) => unwraps || !asserted.contains "pyList"
     | none => false
   addAcceptsFrozen := r.listAddAcceptsFrozen
+  sortedRevAfter := r.sortedReverse == "reverse-after"
+  sortedStable := r.sortedSortFns.all fun f => ["sort.SliceStable", "sort.Stable", "slices.SortStableFunc"].contains f
 
 /-- The surface token of every operator the model knows, as the parser's `operators` map must have it. -/
 def expectedTokens : List (String × String) :=
